@@ -66,7 +66,8 @@ class Case:
     def text(self, dbg, unst=False):
         hdr = "case %d elem=%s N=%d start=%d vals=%s junk=%d fault=%s dbg=%d nid=%d%s" % (
             self.cid, self.elem, self.N, self.start,
-            ",".join(map(str, self.vals)) if self.vals else "-",
+            ("@%d" % len(self.vals) if len(self.vals) > 40 and self.vals == default_vals(len(self.vals))
+             else ",".join(map(str, self.vals))) if self.vals else "-",
             self.junk, self.fault, 1 if dbg else 0, NID, " unst=1" if unst else "")
         return hdr + "\n" + "\n".join(self.ops) + "\nend\n"
 
@@ -395,8 +396,8 @@ def wide_cases(g, Ns, kind, elem="E", fault="none", suffix=("new",), layouts_per
             mk = (lambda c: wide_io(c, N, sz, Rng(N * 1000 + st * 7 + sz), fams)) if kind == "io" else \
                  (lambda c: wide_ops(c, N, sz, Rng(N * 1000 + st * 7 + sz), kind))
             n = len(mk(probe))
-            # large capacities: every case carries the whole contents; keep about 60 operations per layout
-            ev = max(every, n // 60) if N > 1000 else every
+            # large capacities: every case carries the whole contents; keep about 100 operations per layout
+            ev = max(every, n // 100) if N > 1000 else every
             for k in range(n):
                 if ev > 1 and not r.chance(1, ev):
                     continue
